@@ -296,6 +296,26 @@ macro_rules! streq {
 		let up = $s.to_uppercase();
 		if up != $s && *$v == *up.as_str() { $bad.push("ne_case"); }
 	};
+	(uri::Fragment, $B:ty, $v:ident, $o:ident, $s:ident, $bad:ident) => { streq!(@refstr $v, $s, $bad) };
+	(uri::Host, $B:ty, $v:ident, $o:ident, $s:ident, $bad:ident) => { streq!(@refstr $v, $s, $bad) };
+	(uri::UserInfo, $B:ty, $v:ident, $o:ident, $s:ident, $bad:ident) => { streq!(@refstr $v, $s, $bad) };
+	(uri::Authority, $B:ty, $v:ident, $o:ident, $s:ident, $bad:ident) => { streq!(@refstr $v, $s, $bad) };
+	(uri::Query, $B:ty, $v:ident, $o:ident, $s:ident, $bad:ident) => { streq!(@refstr $v, $s, $bad) };
+	(iri::Fragment, $B:ty, $v:ident, $o:ident, $s:ident, $bad:ident) => { streq!(@refstr $v, $s, $bad) };
+	(iri::Host, $B:ty, $v:ident, $o:ident, $s:ident, $bad:ident) => { streq!(@refstr $v, $s, $bad) };
+	(iri::UserInfo, $B:ty, $v:ident, $o:ident, $s:ident, $bad:ident) => { streq!(@refstr $v, $s, $bad) };
+	(iri::Authority, $B:ty, $v:ident, $o:ident, $s:ident, $bad:ident) => { streq!(@refstr $v, $s, $bad) };
+	(iri::Query, $B:ty, $v:ident, $o:ident, $s:ident, $bad:ident) => { streq!(@refstr $v, $s, $bad) };
+	(uri::Path, $B:ty, $v:ident, $o:ident, $s:ident, $bad:ident) => { streq!(@refstr $v, $s, $bad); if !(*$v == *$s) { $bad.push("eq_str"); } if !(*$v == $s.to_string()) { $bad.push("eq_string"); } if !(*$v == *$s.as_bytes()) { $bad.push("eq_bytes"); } };
+	(iri::Path, $B:ty, $v:ident, $o:ident, $s:ident, $bad:ident) => { streq!(@refstr $v, $s, $bad); if !(*$v == *$s) { $bad.push("eq_str"); } if !(*$v == $s.to_string()) { $bad.push("eq_string"); } if !($o == *$s) { $bad.push("eq_str_owned"); } };
+	(@refstr $v:ident, $s:ident, $bad:ident) => {
+		if !(*$v == $s) { $bad.push("eq_refstr"); }
+		let mut other = $s.to_string(); other.push('x');
+		if *$v == other.as_str() { $bad.push("ne_refstr"); }
+		// a different spelling of the same octets is a different text
+		let alt = if $s.contains("%41") { $s.replace("%41", "A") } else if $s.contains('A') { $s.replacen('A', "%41", 1) } else if $s.contains("%61") { $s.replace("%61", "a") } else { $s.replacen('a', "%61", 1) };
+		if alt != $s && *$v == alt.as_str() { $bad.push("eq_other_spelling"); }
+	};
 	($T:ty, $B:ty, $v:ident, $o:ident, $s:ident, $bad:ident) => {};
 }
 pub(crate) use streq;
